@@ -70,6 +70,23 @@ T = {
     needs="ordered choice + a rename before a failure point in a non-last alternative + conditional elision in the same rule: the node is closed and announced under the name of the alternative that was not taken",
     caught="o12_choice_cond_elide_rename, rule_postfix: assertion [C08] `locals assigned by the abandoned alternative are restored` (node_kind == its value at the alternative's entry) fails after set_state",
     extra={"needed_strengthening": "before this seed the contracts said nothing about the rule's local variables - the change would have been MISSED; the locals-restored assertion and the grammar o12_choice_cond_elide_rename were added after reading the agent's report"}),
+ # ---- round 4 (on the tree with five fix: commits; checks run BEFORE reading anything but the agents' summaries, no strengthening) ----
+ "g01": dict(prop="C01",
+    change="the prefix-operator arm of an emitted left-recursive rule assigns `lhs = parser.mark(diags)` instead of declaring a new `let lhs` (src/backend/rust.rs output_left_recursive_rule)",
+    needs="a left-recursive rule with a prefix branch and a weaker infix/postfix operator after the prefix operand (`-1 + 2`): open_before(lhs) inserts inside the closed prefix node, the two nodes overlap and a walk visits tokens twice",
+    caught="loop invariant `lhs.0 == lhs0.0` / `mk(lhs)` [C02,C01] of the operator loop fails before the loop in rule_e::rec / rule_expr::rec of ex_calc, x05_prefix, x07_mixed, x14_prefix_postfix"),
+ "g03": dict(prop="C03",
+    change="CstData::close computes `non_skip_len - 1 - mark.0` unconditionally (the branch for an empty node behind skipped tokens removed)",
+    needs="an empty node opened through mark()+open_before() (conditional elision, marker/creation) right after a skipped token: subtraction overflow (debug) / out-of-range offset (release)",
+    caught="Verus: `possible arithmetic underflow/overflow` in CstData::close in every unit that verifies the skeleton; bounded native run: `attempt to subtract with overflow` on input `d` in e02_cond, t02_return_cond, o06_choice_elide_rename"),
+ "g12": dict(prop="C12",
+    change="LL1Validator::calc_follow_regex creates the left_rec_local_follow_sets entry only when it is going to extend it (src/frontend/sema.rs)",
+    needs="a left-recursive rule that no other rule references (a `part`, or an unused rule): check_regex indexes the missing entry and panics (`no entry found for key`)",
+    caught="bounded front-end stand-in (fecheck): panic on single-lexeme edits of the seed grammars (e.g. calc.llw with one token deleted); with the failing texts (bounded)"),
+ "g16": dict(prop="C16",
+    change="Parser::advance sets error_since_advance when it skips a lexer Error token (src/skeleton/generated.rs)",
+    needs="an Error token directly before a position where a syntax error is due or before a `&` return: the next diagnostic is swallowed / a valid rule is abandoned; every single tree stays lossless and well formed - visible only by comparing two parses",
+    caught="the bounded relational check of C16 (parse with and without the skipped tokens): `removing the skipped tokens changes the diagnostics` in 20 units, with failing inputs (bounded); Verus rejects the `matches!(token, ..)` on a reference in the rewritten loop, so the skeleton units themselves are UNDECIDED"),
 }
 
 
